@@ -21,8 +21,19 @@
         case-sensitively on the full name, one hit per listed occurrence;
       - [DNSEngine.MatchRequest]: network rules first, then host rules.
 
+      - [$ctag=] (permitted / restricted client tags, both sides sorted as
+        urlfilter and the client storage keep them);
+      - [$dnsrewrite] with the payloads AdGuard Home serves for DNS: the
+        empty value / NOERROR keyword, the RCODE keywords (NXDOMAIN, REFUSED,
+        SERVFAIL), A / AAAA values (short and NOERROR;A;… forms) and new
+        CNAMEs; such rules take no part in the choice of the basic rule
+        ([removeDNSRewriteRules]) but stay in [DNSResult.NetworkRules], from
+        which [DNSResult.DNSRewrites] applies the exception logic exactly as
+        written (the in-place loop with its index arithmetic).
+
     Outside the grammar (never generated, matched by nothing here): regex
-    rules [/…/], [$dnsrewrite], [$ctag], [$domain], cosmetic rules. *)
+    rules [/…/], [$domain], other $dnsrewrite record types (MX, TXT, PTR,
+    SRV, HTTPS, SVCB), cosmetic rules. *)
 From Coq Require Import List NArith Bool.
 From AGH Require Import Base.Run Base.NetAddr.
 Import ListNotations.
@@ -89,6 +100,13 @@ Definition clients_equal (a b : clients) : bool :=
   same_multiset eqb_bytes (cl_hosts a) (cl_hosts b) &&
   same_multiset prefix_eqb (cl_nets a) (cl_nets b).
 
+(** A $dnsrewrite payload as [rules.DNSRewrite] (NewCNAME, RCode, RRType,
+    Value): the empty value and the NOERROR keyword are both [DRWRcode 0]. *)
+Inductive dnsrw :=
+  | DRWRcode (rc : N)
+  | DRWCname (name : bytes)
+  | DRWAddr (a : addr).
+
 Record nrule := mkNRule {
   nr_id : N;                   (* identity of the rule line, for reporting *)
   nr_white : bool;             (* @@ *)
@@ -99,19 +117,23 @@ Record nrule := mkNRule {
   nr_dt_restr : list N;        (* $dnstype=~A *)
   nr_cl_perm : clients;        (* $client= *)
   nr_cl_restr : clients;       (* $client=~ *)
-  nr_denyallow : list bytes
+  nr_denyallow : list bytes;
+  nr_ctag_perm : list bytes;   (* $ctag= *)
+  nr_ctag_restr : list bytes;  (* $ctag=~ *)
+  nr_drw : option dnsrw        (* $dnsrewrite= *)
 }.
 
 Record hrule := mkHRule { hr_id : N; hr_ip : addr; hr_names : list bytes }.
 
 Inductive rule := RNet (r : nrule) | RHost (h : hrule).
 
-(** The request as urlfilter.DNSRequest (client tags are outside the grammar). *)
+(** The request as urlfilter.DNSRequest. *)
 Record ufreq := mkReq {
   rq_host : bytes;
   rq_qtype : N;
   rq_cname : bytes;            (* ClientName, empty = not considered *)
-  rq_cip : option addr         (* ClientIP, None = zero value *)
+  rq_cip : option addr;        (* ClientIP, None = zero value *)
+  rq_ctags : list bytes        (* SortedClientTags *)
 }.
 
 (** * Patterns *)
@@ -320,11 +342,25 @@ Definition match_client (r : nrule) (name : bytes) (ip : option addr) : bool :=
   else if clients_empty (nr_cl_perm r) then true
   else clients_contain (nr_cl_perm r) name ip.
 
+(** matchClientTags / matchClientTagsSpecific: the two-pointer walk over two
+    sorted lists finds a common element iff there is one. *)
+Definition tags_meet (rule_tags client_tags : list bytes) : bool :=
+  existsb (fun t => mem_bytes t client_tags) rule_tags.
+
+Definition match_ctags (r : nrule) (tags : list bytes) : bool :=
+  match nr_ctag_perm r, nr_ctag_restr r with
+  | [], [] => true
+  | perm, restr =>
+      if tags_meet restr tags then false
+      else match perm with [] => true | _ => tags_meet perm tags end
+  end.
+
 (** NetworkRule.Match for a host-name request. *)
 Definition nrule_match (q : ufreq) (r : nrule) : bool :=
   match_shortcut (nr_pattern r) (rq_host q) &&
   match_denyallow r (rq_host q) &&
   match_dnstype r (rq_qtype q) &&
+  match_ctags r (rq_ctags q) &&
   match_client r (rq_cname q) (rq_cip q) &&
   match_pattern (nr_pattern r) (rq_host q).
 
@@ -337,13 +373,16 @@ Definition has_dnstypes (r : nrule) := nonempty (nr_dt_perm r) || nonempty (nr_d
 Definition has_clients (r : nrule) :=
   negb (clients_empty (nr_cl_perm r)) || negb (clients_empty (nr_cl_restr r)).
 
+Definition has_ctags (r : nrule) := nonempty (nr_ctag_perm r) || nonempty (nr_ctag_restr r).
+
 (** The two counts of IsHigherPriority: the left one includes $client and
-    $denyallow, the right one does not. *)
+    $denyallow, the right one does not ($dnsrewrite is not an option bit and
+    counts on neither side). *)
 Definition count_left (r : nrule) : N :=
-  b2n (nr_important r) + b2n (nr_badfilter r) + b2n (has_dnstypes r) +
+  b2n (nr_important r) + b2n (nr_badfilter r) + b2n (has_dnstypes r) + b2n (has_ctags r) +
   b2n (has_clients r) + b2n (nonempty (nr_denyallow r)).
 Definition count_right (r : nrule) : N :=
-  b2n (nr_important r) + b2n (nr_badfilter r) + b2n (has_dnstypes r).
+  b2n (nr_important r) + b2n (nr_badfilter r) + b2n (has_dnstypes r) + b2n (has_ctags r).
 
 Definition is_higher_priority (f r : nrule) : bool :=
   let fi := nr_important f in let ri := nr_important r in
@@ -356,13 +395,15 @@ Definition is_higher_priority (f r : nrule) : bool :=
   else if rw && negb fw then false
   else count_right r <? count_left f.
 
-(** negatesBadfilter: $dnstype and $denyallow are not compared. *)
+(** negatesBadfilter: $dnstype, $denyallow and $dnsrewrite are not compared. *)
 Definition negates_badfilter (f r : nrule) : bool :=
   nr_badfilter f &&
   Bool.eqb (nr_white f) (nr_white r) &&
   eqb_bytes (nr_pattern f) (nr_pattern r) &&
   Bool.eqb (nr_important f) (nr_important r) &&
   negb (nr_badfilter r) &&
+  eqb_list eqb_bytes (nr_ctag_perm f) (nr_ctag_perm r) &&
+  eqb_list eqb_bytes (nr_ctag_restr f) (nr_ctag_restr r) &&
   clients_equal (nr_cl_perm f) (nr_cl_perm r) &&
   clients_equal (nr_cl_restr f) (nr_cl_restr r).
 
@@ -379,14 +420,25 @@ Definition pick (best : option nrule) (r : nrule) : option nrule :=
   | Some b => if is_higher_priority r b then Some r else Some b
   end.
 
+Definition has_drw (r : nrule) : bool := match nr_drw r with Some _ => true | None => false end.
+
+(** removeDNSRewriteRules *)
+Definition remove_drw (rs : list nrule) : list nrule := filter (fun r => negb (has_drw r)) rs.
+
+(** The rules that compete for the basic rule. *)
+Definition basic_candidates (rs : list nrule) : list nrule := remove_drw (remove_badfilter rs).
+
 Definition get_dns_basic_rule (rs : list nrule) : option nrule :=
-  fold_left pick (remove_badfilter rs) None.
+  fold_left pick (basic_candidates rs) None.
 
 (** * The DNS engine *)
 
-Record dnsresult := mkRes { dr_net : option nrule; dr_v4 : list hrule; dr_v6 : list hrule }.
+Record dnsresult := mkRes {
+  dr_net : option nrule; dr_v4 : list hrule; dr_v6 : list hrule;
+  dr_all : list nrule          (* NetworkRules: every matching network rule *)
+}.
 
-Definition empty_result : dnsresult := mkRes None [] [].
+Definition empty_result : dnsresult := mkRes None [] [] [].
 
 Definition net_rules (rs : list rule) : list nrule :=
   flat_map (fun r => match r with RNet n => [n] | RHost _ => [] end) rs.
@@ -405,16 +457,75 @@ Definition match_request (rs : list rule) (q : ufreq) : dnsresult * bool :=
   match rq_host q with
   | [] => (empty_result, false)
   | _ =>
-      match get_dns_basic_rule (match_all rs q) with
-      | Some n => (mkRes (Some n) [] [], true)
+      let all := match_all rs q in
+      match get_dns_basic_rule all with
+      | Some n => (mkRes (Some n) [] [] all, true)
       | None =>
           match host_hits rs (rq_host q) with
-          | [] => (empty_result, false)
+          | [] => (mkRes None [] [] all, false)
           | hits => (mkRes None (filter (fun h => is4 (hr_ip h)) hits)
-                              (filter (fun h => negb (is4 (hr_ip h))) hits), true)
+                              (filter (fun h => negb (is4 (hr_ip h))) hits) all, true)
           end
       end
   end.
+
+(** * $dnsrewrite: DNSResult.DNSRewrites (urlfilter/dnsrewrite.go) *)
+
+Definition drw_cname (d : dnsrw) : bytes := match d with DRWCname n => n | _ => [] end.
+Definition drw_rcode (d : dnsrw) : N := match d with DRWRcode rc => rc | _ => 0 end.
+(** RRType and Value together: None = (0, nil). *)
+Definition drw_value (d : dnsrw) : option addr := match d with DRWAddr a => Some a | _ => None end.
+Definition drw_is_zero (d : dnsrw) : bool := match d with DRWRcode 0 => true | _ => false end.
+
+Definition the_drw (r : nrule) : dnsrw := match nr_drw r with Some d => d | None => DRWRcode 0 end.
+
+(** matchException *)
+Definition match_exception (nr exc : nrule) (exc_important : bool) : bool :=
+  if negb exc_important && nr_important nr then false
+  else
+    let n := the_drw nr in let e := the_drw exc in
+    match drw_cname e with
+    | _ :: _ => eqb_bytes (drw_cname n) (drw_cname e)
+    | [] =>
+        if drw_rcode n =? drw_rcode e then
+          if negb (drw_rcode e =? 0) then true
+          else eqb_option addr_eqb (drw_value n) (drw_value e)
+        else false
+    end.
+
+(** removeMatchingException (exc is one of the $dnsrewrite rules). *)
+Definition remove_matching_exception (l : list nrule) (exc : nrule) : list nrule :=
+  if drw_is_zero (the_drw exc) then
+    (if nr_important exc then [] else filter nr_important l)
+  else filter (fun nr => negb (match_exception nr exc (nr_important exc))) l.
+
+Fixpoint remove_nth {A} (i : nat) (l : list A) : list A :=
+  match i, l with
+  | _, [] => []
+  | O, _ :: t => t
+  | S i', x :: t => x :: remove_nth i' t
+  end.
+
+(** The loop of DNSRewrites: [for i := 0; i < len(nrules); i++] over a slice
+    that is edited in place; after an exception at index i is taken out (and
+    what it disables with it) the index still advances.  [fuel] bounds the
+    iterations; [S (length l)] is always enough ([drw_loop_fuel] in
+    Proofs/RuleEngine.v), [None] = out of fuel. *)
+Fixpoint drw_loop (fuel i : nat) (l : list nrule) : option (list nrule) :=
+  match fuel with
+  | O => None
+  | S fuel' =>
+      match nth_error l i with
+      | None => Some l
+      | Some nr =>
+          if nr_white nr then drw_loop fuel' (S i) (remove_matching_exception (remove_nth i l) nr)
+          else drw_loop fuel' (S i) l
+      end
+  end.
+
+Definition dns_rewrites (dr : dnsresult) : list nrule :=
+  let all := filter has_drw (dr_all dr) in
+  match drw_loop (S (length all)) 0 all with Some l => l | None => [] end.
 
 (** strings.ToLower over a whole rule line (access blocked-hosts). *)
 Definition lower_clients (c : clients) : clients := mkClients (map lower (cl_hosts c)) (cl_nets c).
@@ -424,6 +535,8 @@ Definition lower_rule (r : rule) : rule :=
   | RNet n =>
       RNet (mkNRule (nr_id n) (nr_white n) (lower (nr_pattern n)) (nr_important n) (nr_badfilter n)
               (nr_dt_perm n) (nr_dt_restr n) (lower_clients (nr_cl_perm n))
-              (lower_clients (nr_cl_restr n)) (map lower (nr_denyallow n)))
+              (lower_clients (nr_cl_restr n)) (map lower (nr_denyallow n))
+              (map lower (nr_ctag_perm n)) (map lower (nr_ctag_restr n))
+              (match nr_drw n with Some (DRWCname c) => Some (DRWCname (lower c)) | d => d end))
   | RHost h => RHost (mkHRule (hr_id h) (hr_ip h) (map lower (hr_names h)))
   end.
